@@ -35,6 +35,7 @@ var corpusScenarios = []corpusScenario{
 	{"update-same-order-twice", false, corpusUpdateSameOrderTwice},
 	{"buy-across-markets", false, corpusBuyAcrossMarkets},
 	{"put-beyond-34-digits", false, corpusPutBeyond34Digits},
+	{"all-zero-balance-rows", false, corpusAllZeroBalanceRows},
 }
 
 func init() { QuickCounts["corpus"] = len(corpusScenarios) }
@@ -417,5 +418,39 @@ func corpusPutBeyond34Digits(c Cfg) *Result {
 	g.Do(a.MsgBasketTake(2, bd, "5000000000000000000000000000000000", false, "", ""), "take spanning into the third batch")
 	g.Do(a.MsgBasketTake(0, bd, "1", false, "", ""), "take 1 token")
 	g.Commit()
+	return g.Finish()
+}
+
+// ---- all-zero-balance-rows (C09) ---------------------------------------------------------------------
+// States in which every balance row of a batch is zero (handlers keep "0" rows): the sole holder puts
+// everything into a basket, sells/loses everything, cancels everything, retires everything. The
+// exported genesis of each of them must validate and import back to the same state.
+
+func corpusAllZeroBalanceRows(c Cfg) *Result {
+	g := NewG(c, chain.Options{GenesisTime: T0})
+	a := g.App
+	g.Begin(g.now.Add(6 * time.Second))
+	cid := g.mkClass(0, []int{0}, "C")
+	pid := g.mkProject(0, cid, "")
+	b1 := g.mkBatch(0, pid, date(2020, 1, 1), date(2021, 1, 1), true, nil, "100 credits, one holder", g.iss(0, "100", ""))
+	b2 := g.mkBatch(0, pid, date(2020, 2, 1), date(2021, 2, 1), true, nil, "50 credits, one holder", g.iss(1, "50", ""))
+	res := g.Do(a.MsgBasketCreate(2, "ZERO", "d", "C", []string{cid}, true, nil, g.basketFee(g.V())), "basket")
+	bd := respField(res, "basket_denom")
+	g.Do(a.MsgBasketPut(0, bd, chain.BasketCredit(b1, "40")), "partial put")
+	g.Commit()
+	g.GenesisRT("after a partial put")
+	g.Begin(g.nextTime())
+	g.Do(a.MsgBasketPut(0, bd, chain.BasketCredit(b1, "60")), "the sole holder puts the rest: every balance row of the batch is zero, the basket holds the supply")
+	g.Commit()
+	g.GenesisRT("batch held only by a basket")
+	g.Begin(g.nextTime())
+	g.Do(a.MsgCancel(1, "all", chain.Credits(b2, "50")), "the sole holder cancels everything: balance rows and tradable supply are zero")
+	g.Commit()
+	g.GenesisRT("batch with zero supply and zero balance rows")
+	g.Begin(g.nextTime())
+	g.Do(a.MsgBasketTake(0, bd, "100000000", false, "", ""), "take everything back (auto-retire on take is disabled)")
+	g.Do(a.MsgRetire(0, "US-WA", "", chain.Credits(b1, "100")), "retire everything")
+	g.Commit()
+	g.GenesisRT("batch fully retired")
 	return g.Finish()
 }
